@@ -28,4 +28,14 @@ def offsetAt : Tree → List Nat → Option Nat
     | some k => (offsetAt k p).map (· + kidsOffset ks i)
     | none => none
 
+mutual
+  /-- No node of the tree is column-dependent (`depends_on_column`, set only for tokens of
+  external scanners that called `get_column`). -/
+  def noCol : Tree → Bool
+    | .mk d ks => !d.dependsOnColumn && noColL ks
+  def noColL : List Tree → Bool
+    | [] => true
+    | k :: rest => noCol k && noColL rest
+end
+
 end TsVerif.C12
